@@ -55,7 +55,7 @@ func init() {
 		Assume: []string{
 			"scheduling points are the sync/atomic/channel operations of the kubebrain packages and (badger, tikv) every engine call; code between two points is atomic (data-race freedom is C19's subject)",
 			"badger / tikv-mock internals are not scheduled: an engine call is one atomic step",
-			"capacities shrunk: watchersChanCapacity=128",
+			"capacities shrunk: watchersChanCapacity=100",
 			"the commit of a write batch is the linearisation point of a successful write (memkv applies a batch under its store mutex without scheduling points)",
 		},
 		Scenarios: func(tier string) []*mc.Scenario {
